@@ -61,6 +61,23 @@ def run(prog: Program, rep: Report):
     r6_validation(prog, rep, sf)
     r7_observers(prog, rep, sf)
     r8_empty_methods(prog, rep, sf)
+    from .memo import public_entry_points, rule_derived_state
+    for c in (sf.sset, sf.smap):
+        prim = {x for x in (sf.key_storage[c.qual], sf.value_storage(c)) if x}
+        rule_derived_state(prog, rep, "C09.R10", c, prim, public_entry_points(prog, c),
+                           what="a remembered search result or position must not survive add/discard/clear/delete", floor=2)
+    # the constructor of the map orders the initial keys with generic.arg_sort: its correctness clause is part of this property
+    uses_arg_sort = any(isinstance(n, ast.Call) and isinstance(n.func, ast.Name) and n.func.id == "arg_sort"
+                        for n in ast.walk(prog.method(sf.smap, "__init__").node))
+    if uses_arg_sort:
+        from .c19 import r3_arg_sort
+        r3_arg_sort(prog, rep, "C09.R12")
+    from .ownership import rule_owned_storage
+    rep.rule("C09.R11", "SortedSet / SortedMap own the arrays they mutate in place: every value stored into the key / value storage is "
+             "created by the storing method (display, comprehension, list()/sorted()/copy/slice) or derived from such a value, "
+             "never another object's field, a parameter or another field of the instance", floor=3)
+    for c in (sf.sset, sf.smap):
+        rule_owned_storage(prog, rep, "C09.R11", c, {x for x in (sf.key_storage[c.qual], sf.value_storage(c)) if x}, declare=False)
     oneshot_rule(prog, rep, "C09.R9", [prog.method(sf.sset, "__init__"), prog.method(sf.smap, "__init__")],
                  "initial values given as a generator must all arrive in the storage")
 
@@ -327,6 +344,9 @@ def r2_dedup(prog, rep: Report, sf: SortedFacts):
             verdicts.append((True, "own add() de-duplicates", n))
         if isinstance(n, ast.Assign) and any(dotted(t) == (f.self_name, ks) for t in n.targets) \
                 and not (isinstance(n.value, ast.List) and not n.value.elts):
+            if _same_class_storage(n, n.value, param, c.name, ks):
+                verdicts.append((True, "storage of another instance of the same class (sorted and duplicate-free by this rule)", n))
+                continue
             d = _derives_via_dedup(n.value, flow, param)
             sorted_ = any(isinstance(x, ast.Call) and src(x.func) == "sorted" for x in ast.walk(n.value))
             verdicts.append((d is True and sorted_, f"storage assigned from {src(n.value)}"
@@ -364,6 +384,9 @@ def r2_dedup(prog, rep: Report, sf: SortedFacts):
         if _is_gather_of(n.value, f, ks):
             results.append((True, "re-ordering of the key storage by a permutation", n))
             continue
+        if _same_class_storage(n, n.value, param, c.name, ks):
+            results.append((True, "key storage of another instance of the same class (unique by this rule)", n))
+            continue
         d = _derives_via_dedup(n.value, flow, param)
         results.append((d is True, f"key storage assigned from `{src(n.value)}`"
                         + (" through dict()" if d else ": no de-duplicating (last-wins) step between the pairs and the storage"), n))
@@ -396,6 +419,23 @@ def r2_dedup(prog, rep: Report, sf: SortedFacts):
         rep.check("C09.R2", f, "map-dedup", not bad, "; ".join(r[1] for r in results), "; ".join(r[1] for r in bad),
                   scenario="SortedMap([(1,'a'),(1,'b')]) keeps both pairs: len 2, m[1] == 'a'",
                   line=bad[0][2].lineno if bad else None)
+
+
+def _same_class_storage(stmt, value, param, clsname, ks) -> bool:
+    """`<param>.<key storage>` (possibly copied: list(...), [:] , .copy()) under `isinstance(<param>, <this class>)`: what one
+    instance holds is already sorted and duplicate-free, so is a copy of it (sharing it is the business of the ownership rule)"""
+    v = value
+    while True:
+        if isinstance(v, ast.Call) and src(v.func) in ("list", "sorted") and len(v.args) == 1:
+            v = v.args[0]
+        elif isinstance(v, ast.Call) and isinstance(v.func, ast.Attribute) and v.func.attr == "copy" and not v.args:
+            v = v.func.value
+        elif isinstance(v, ast.Subscript) and isinstance(v.slice, ast.Slice) and v.slice.lower is None and v.slice.upper is None:
+            v = v.value
+        else:
+            break
+    return isinstance(v, ast.Attribute) and isinstance(v.value, ast.Name) and v.value.id == param and v.attr == ks \
+        and _under_isinstance(stmt, param, clsname)
 
 
 def _enclosing_if(n):
